@@ -32,17 +32,29 @@ def gen_reg_args(rng):
     a = {
         "rp_id": rng.choice(["example.com", "login.example.org", "bücher.example" if nonascii else "a.b", "Login.Example.COM", "İstanbul.example" if nonascii else "EXAMPLE.com"]),
         "rp_name": rng.choice(["Example Co", "ACME", "Bücher & Söhne" if nonascii else "Books", " padded name "]),
-        "user_name": rng.choice(["lee", "user@example.com", "ユーザー" if nonascii else "u", "Lee@Example.COM", " lee "]),
+        "user_name": rng.choice(["lee", "user@example.com", "ユーザー" if nonascii else "u", "Lee@Example.COM", " lee ", "Zoe\u0308" if nonascii else "zoe", "\u212bngstro\u0308m" if nonascii else "angstrom"]),
         "user_id": rng.choice([None, None, b"", rng.randbytes(rng.choice([1, 16, 64]))]),
-        "display_name": rng.choice([None, "", "Lee Smith", "李"]),
+        "display_name": rng.choice([None, "", "Lee Smith", "李", "Zoe\u0308 \ufb01", "e\u0301"]),
         "challenge": rng.choice([None, None, b"", rng.randbytes(rng.choice([1, 16, 32, 64, 100]))]),
         "timeout": rng.choice([60000, 0, 1, 12000, 2 ** 31]),
         "attestation": rng.choice(ATTEST),
         "auth_sel": rng.choice([None, None]) if rng.random() < 0.4 else gen_auth_sel(rng),
         "exclude": rng.choice([None, []]) if rng.random() < 0.4 else [gen_descriptor(rng) for _ in range(rng.randrange(1, 4))],
-        "algs": rng.choice([None, []]) if rng.random() < 0.4 else rng.sample(ALGS, rng.randrange(1, 6)),
+        "algs": rng.choice([None, []]) if rng.random() < 0.4 else (rng.sample(ALGS, rng.randrange(1, 6)) if rng.random() < 0.8 else [rng.choice(ALGS) for _ in range(rng.randrange(2, 6))] + [-7, -7]),
         "hints": rng.choice([None, None, [], [rng.choice(HINTS)], rng.sample(HINTS, 2)]),
     }
+    # arguments that happen to coincide with one another are still independent values
+    r = rng.random()
+    if r < 0.06:
+        a["user_id"] = a["user_name"].encode("utf-8")
+    elif r < 0.10:
+        a["user_id"] = a["rp_id"].encode("utf-8")
+    elif r < 0.14 and a["challenge"]:
+        a["user_id"] = a["challenge"]
+    elif r < 0.18:
+        a["display_name"] = a["user_name"]
+    elif r < 0.22:
+        a["rp_name"] = a["rp_id"]
     return a
 
 
